@@ -58,14 +58,18 @@ func (e *Enc) call(ins ssa.Instruction, c *ssa.CallCommon, res *ssa.Call) {
 	}
 	if c.IsInvoke() {
 		key := ifaceKey(c)
-		if ct := e.cs.Iface[key]; ct != nil {
+		if ct := e.cs.IfaceFor(key); ct != nil {
 			var params []string
 			params = append(params, "recv")
 			ms := c.Method.Type().(*types.Signature)
 			for i := 0; i < ms.Params().Len(); i++ {
 				params = append(params, ms.Params().At(i).Name())
 			}
-			e.applyContract(ins, ct, nil, sig, params, args, argT, res, "iface "+key, e.w.invokeWrites(c))
+			wr := e.w.invokeWrites(c)
+			if ct.Pure {
+				wr = map[string]bool{}
+			}
+			e.applyContract(ins, ct, nil, sig, params, args, argT, res, "iface "+key, wr)
 			return
 		}
 		e.defaultCall(ins, sig, res, e.w.invokeWrites(c), "invoke "+key)
@@ -90,7 +94,10 @@ func (e *Enc) call(ins ssa.Instruction, c *ssa.CallCommon, res *ssa.Call) {
 	}
 	if _, isLib := e.w.ModSet[callee]; isLib {
 		for _, ip := range e.implicitPre(callee) {
-			what := "recv:" + descOf(e.exprText(c.Args[0], ins))
+			what := "recv:" + descOf(e.exprText(c.Args[ip.param], ins))
+			if ip.param > 0 || callee.Signature.Recv() == nil {
+				what = "arg:" + descOf(e.exprText(c.Args[ip.param], ins))
+			}
 			cls := "nil"
 			if ip.kind == "lockfree" {
 				what, cls = "callee-acquires:"+shortCallee(name), "lock"
@@ -98,7 +105,7 @@ func (e *Enc) call(ins ssa.Instruction, c *ssa.CallCommon, res *ssa.Call) {
 			}
 			e.oblige(cls, what, "", pos, e.guardGoal(e.implTerm(ip, args, e.cur)))
 		}
-		if ct := e.cs.ByFunc[name]; ct != nil {
+		if ct := e.cs.For(name); ct != nil {
 			var params []string
 			for _, p := range callee.Params {
 				params = append(params, p.Name())
@@ -114,7 +121,7 @@ func (e *Enc) call(ins ssa.Instruction, c *ssa.CallCommon, res *ssa.Call) {
 	if e.extCall(ins, ename, callee, sig, res, args, argT) {
 		return
 	}
-	if ct := e.cs.ByFunc["ext:"+ename]; ct != nil {
+	if ct := e.cs.For("ext:"+ename); ct != nil {
 		var params []string
 		if sig.Recv() != nil {
 			params = append(params, "recv")
@@ -141,7 +148,7 @@ func ifaceKey(c *ssa.CallCommon) string {
 // havocCallWrites forgets what a library callee may write. Per heap key, the syntactic frame analysis (freshonly.go)
 // says whether the callee can write cells that existed before the call and, if so, rooted at which arguments; every other
 // pre-existing cell keeps its value.
-func (e *Enc) havocCallWrites(h *Heap, writes map[string]bool, callee *ssa.Function, args []Val) {
+func (e *Enc) havocCallWritesAt(h *Heap, writes map[string]bool, callee *ssa.Function, args []Val, apre string) {
 	if callee == nil || writes["*"] {
 		e.havocSet(h, writes)
 		return
@@ -151,7 +158,6 @@ func (e *Enc) havocCallWrites(h *Heap, writes map[string]bool, callee *ssa.Funct
 		e.havocSet(h, writes)
 		return
 	}
-	apre := e.allocCounter(h)
 	var keys []string
 	for k := range writes {
 		keys = append(keys, k)
@@ -159,7 +165,7 @@ func (e *Enc) havocCallWrites(h *Heap, writes map[string]bool, callee *ssa.Funct
 	sort.Strings(keys)
 	for _, k := range keys {
 		wc := we[k]
-		if strings.HasPrefix(k, "$") || k == "map" || (wc != nil && wc.other) {
+		if ghostPlain(k) || k == "map" || (wc != nil && wc.other) {
 			e.havocKey(h, k)
 			continue
 		}
@@ -207,8 +213,9 @@ func (e *Enc) defaultCall(ins ssa.Instruction, sig *types.Signature, res *ssa.Ca
 			}
 		}
 	}
-	e.havocCallWrites(h, writes, callee, args)
-	e.havocKey(h, "$A")
+	apre := e.allocCounter(h)
+	e.havocKey(h, "$A") // first: heaps forgotten below may hold references allocated by the callee
+	e.havocCallWritesAt(h, writes, callee, args, apre)
 	rs := e.freshResults(sig, h)
 	for _, r := range rs {
 		e.assert(e.refOld(r, h))
@@ -225,8 +232,9 @@ func (e *Enc) applyContract(ins ssa.Instruction, ct *Contract, callee *ssa.Funct
 	envPre := e.callEnv(callee, sig, params, args, argT, pre, pre, nil)
 	envPre.owner = "call to " + name
 	for i, r := range ct.Requires {
-		t := e.evalBool(r, envPre)
-		e.oblige("pre", fmt.Sprintf("%s.%d", shortCallee(name), i), "", ins.Pos(), e.guardGoal(t))
+		if t, ok := e.evalClause(ct, r, envPre); ok {
+			e.oblige("pre", fmt.Sprintf("%s.%d", shortCallee(name), i), "", ins.Pos(), e.guardGoal(t))
+		}
 	}
 	// frame
 	if ct.HasAssigns {
@@ -234,7 +242,9 @@ func (e *Enc) applyContract(ins ssa.Instruction, ct *Contract, callee *ssa.Funct
 			e.havocLoc(h, loc, envPre, ins)
 		}
 	} else {
-		e.havocCallWrites(h, inferred, callee, args)
+		apre := e.allocCounter(h)
+		e.havocKey(h, "$A")
+		e.havocCallWritesAt(h, inferred, callee, args, apre)
 	}
 	e.havocKey(h, "$A")
 	rs := e.freshResults(sig, h)
@@ -244,7 +254,9 @@ func (e *Enc) applyContract(ins ssa.Instruction, ct *Contract, callee *ssa.Funct
 	envPost := e.callEnv(callee, sig, params, args, argT, pre, h, rs)
 	envPost.owner = "call to " + name
 	for _, en := range ct.Ensures {
-		e.assert(implies(e.reach[e.curBlock], e.evalBool(en.Expr, envPost)))
+		if t, ok := e.evalClause(ct, en.Expr, envPost); ok {
+			e.assert(implies(e.reach[e.curBlock], t))
+		}
 	}
 	for _, fr := range ct.Fresh {
 		if b, ok := envPost.names[fr]; ok {
@@ -317,6 +329,10 @@ func (e *Enc) havocLoc(h *Heap, loc *Sx, env *evalEnv, ins ssa.Instruction) {
 		for _, k := range e.w.keysOfType(st.Elem()) {
 			e.havocKeyExcept(h, k, app("sarr", x.v.T))
 		}
+	case "bigcell":
+		x := e.eval(loc.List[1], env)
+		v := e.fresh("asgbig", "Int")
+		h.m["$big"] = app("store", e.heapGet(h, "$big", "Int"), x.v.T, v)
 	case "key":
 		e.havocKey(h, strings.Trim(loc.List[1].Atom, "\""))
 	case "deref":
@@ -352,10 +368,41 @@ func (e *Enc) havocKeyExcept(h *Heap, key, arr string) {
 	h.m[key] = n
 }
 
-// funcValueCall: calls through function values that can be resolved (closures bound in this function).
+// funcValueCall: calls through a function value whose type has a family contract (`//@ sig`): the caller proves the
+// family's preconditions (and that every pointer argument is non-nil); every library function used as a value of that
+// type is checked to require no more than the family grants (sigCheck).
 func (e *Enc) funcValueCall(ins ssa.Instruction, c *ssa.CallCommon, res *ssa.Call, args []Val, argT []types.Type) bool {
-	return false
+	ct := e.cs.Sigs[types.TypeString(c.Value.Type().Underlying(), shortQual)]
+	if ct == nil {
+		return false
+	}
+	sig := c.Signature()
+	fv := e.val(c.Value)
+	e.oblige("nil", "call:"+descOf(e.exprText(c.Value, ins)), "", ins.Pos(), e.guardGoal(app("distinct", fv.T, "nil")))
+	var params []string
+	for i := 0; i < sig.Params().Len(); i++ {
+		n := sig.Params().At(i).Name()
+		if n == "" || n == "_" {
+			n = fmt.Sprintf("a%d", i)
+		}
+		params = append(params, n)
+		if _, isPtr := under(sig.Params().At(i).Type()).(*types.Pointer); isPtr && i < len(args) {
+			e.oblige("nil", fmt.Sprintf("arg%d:%s", i, descOf(e.exprText(c.Args[i], ins))), "", ins.Pos(), e.guardGoal(app("distinct", args[i].T, "nil")))
+		}
+	}
+	if pn := ct.Opts["params"]; pn != "" {
+		params = strings.Fields(pn)
+	}
+	wr := map[string]bool{"*": true}
+	if ct.Pure {
+		wr = map[string]bool{}
+	}
+	e.trustedUsed["indirect calls through "+ct.Func+" values are checked against the family contract; library functions used as such values are checked to require no more (sigcheck)"] = true
+	e.applyContract(ins, ct, nil, sig, params, args, argT, res, "sig "+ct.Func, wr)
+	return true
 }
+
+func shortQual(p *types.Package) string { return shortPkg(p.Path()) }
 
 // ---------------------------------------------------------------------------------------------
 // builtins
